@@ -630,3 +630,106 @@ def idx_r10(ctx):
               "registers the exchange, the instrument and each of: base, quote, settlement asset (when the kind has one), "
               "quantity-unit asset (when the spec names one) - each under the instrument's own exchange, independently of the others",
               got=got, want=want, key="registers-all")
+
+
+def _leaves(ctx, term, path=()):
+    """(destination path, leaf term) pairs of a (nested) record term: aggregate fields and enum payloads are descended,
+    constructor calls (`Underlying::new(base, quote)`) are resolved to the record they build"""
+    if term[0] == "call" and term[1] in ctx.facts.bodies and mir._strip_generics(term[1]).rsplit("::", 1)[-1] in ("new", "from"):
+        r = common.resolve_calls(ctx, term, lambda c: c == term[1], depth=1)
+        if r != term and r[0] == "agg":
+            term = r
+    if term[0] == "agg" and not term[1].startswith(("closure:", "tuple", "array", "vec")):
+        names, vals = term[2], term[3]
+        variant = term[1].rsplit("::", 1)[-1]
+        adt = term[1].rsplit("::", 2)[-2] if term[1].count("::") >= 1 else ""
+        is_enum_variant = variant != adt
+        out = []
+        if is_enum_variant and not vals:
+            return [(path, ("variant", variant))]
+        for n_, v in zip(names, vals):
+            sub = path + (("as:" + variant,) if is_enum_variant else ()) + (str(n_),)
+            out.extend(_leaves(ctx, v, sub))
+        return out
+    return [(path, term)]
+
+
+def idx_r11(ctx):
+    """role-preserving key translation: Instrument::map_asset_key_with_lookup rebuilds the instrument field by field; the asset
+    key stored at a place is the lookup of the key found at THAT SAME place of the source (base <- base, quote <- quote,
+    settlement asset <- settlement asset, unit asset <- unit asset); everything else is copied from its own place"""
+    I = "barter_instrument::instrument::Instrument"
+    b = ctx.fibody(name="map_asset_key_with_lookup", self_adt=I, trait="")
+    lk = b.param_name(2)
+    n = 0
+    bad = []
+    for g, t, bi in b.expanded_cases(0):
+        if not (t[0] == "agg" and t[1].endswith("Result::Ok")):
+            continue
+        atoms_ = set()
+        for conj in g:
+            for a in conj:
+                if a[0] == "is":
+                    atoms_.add((render(a[1]), tuple(sorted(a[2]))))
+        for path, leaf in _leaves(ctx, t[3][0]):
+            src = "self" + "".join("." + p for p in path)
+            n += 1
+            if leaf[0] == "variant":
+                # a payload-free variant written as a literal: the case must be the one where the source holds that variant
+                if (src, (leaf[1],)) not in atoms_:
+                    bad.append((src, "literal %s not under `%s is %s`" % (leaf[1], src, leaf[1])))
+                continue
+            while leaf[0] == "call" and leaf[1] in ("std::convert::Into::into", "std::convert::From::from") and len(leaf[2]) == 1:
+                leaf = leaf[2][0]       # (conversion of a key into its own type: `Underlying::new(base: impl Into<AssetKey>, ..)`)
+            r = render(leaf)
+            lookup = "Try::branch(Fn::call(%s, tuple{0: %s})).as:Continue.0" % (lk, src)
+            alt = "Try::branch(FnMut::call_mut(%s, tuple{0: %s})).as:Continue.0" % (lk, src)
+            if r not in (src, lookup, alt):
+                bad.append((src, r[:160]))
+    ctx.check("Instrument::map_asset_key_with_lookup", not bad and n > 0,
+              "every field of the rebuilt instrument is its own source field, or the lookup of the asset key found at that same place",
+              got=sorted(set(bad))[:6], key="role-preserving")
+    ctx.floor("destination fields of the rebuilt instrument", n, 100)
+
+
+def idx_r12(ctx):
+    """by-name access agrees with by-index access: the state tables are keyed by the indexed entity's OWN name (instrument:
+    name_internal; asset: (exchange, internal asset name); exchange: its id), and each state is built for that same entity"""
+    want = {
+        "barter::engine::state::instrument::generate_indexed_instrument_states":
+            ("instruments.instruments", ["$1.value.name_internal"], "InstrumentState::new($1.key, "),
+        "barter::engine::state::asset::generate_empty_indexed_asset_states":
+            ("instruments.assets", ["ExchangeAsset::ExchangeAsset{exchange: $1.value.exchange, asset: $1.value.asset.name_internal}"],
+             "AssetState::AssetState{asset: $1.value.asset, "),
+        "barter::engine::state::connectivity::generate_empty_indexed_connectivity_states":
+            ("instruments.exchanges", ["$1.value"], "ConnectivityState::"),
+    }
+    n = 0
+    for p, (src, keys, state_prefix) in want.items():
+        ds = [d for d in ctx.facts.bodies if mir._strip_generics(d) == p]
+        if len(ds) != 1:
+            raise Exception("anchor not found: " + p)
+        b = ctx.ibody(ds[0])
+        got = None
+        ok = False
+        maps = [s_ for s_ in mir.subterms(b.return_term()) if s_[0] == "call" and s_[1].endswith("Iterator::map") and s_[2][1][0] == "agg"]
+        if len(maps) == 1 and render(common.strip_iter(maps[0][2][0])) == src:
+            cb, _ = mir.closure_body(ctx.facts, maps[0][2][1])
+            rt = cb.return_term()
+            if rt[0] == "agg" and len(rt[3]) == 2:
+                key = common.resolve_calls(ctx, rt[3][0], lambda c: mir._strip_generics(c).rsplit("::", 1)[-1] in ("new", "from"))
+                # (`Into::into` of a value that already has the key's type is the identity conversion)
+                got = (re.sub(r"Into::into\(([^()]*)\)", r"\1", render(key)), render(rt[3][1])[:80])
+                ok = got[0] in keys and got[1].startswith(state_prefix)
+        else:
+            # loop form: one complete loop over the same source with one unconditional insert(table, key, state)
+            vs = [v for v in common.elementwise_views(ctx, ds[0]) if v["kind"] == "loop" and v["complete"] and v["source"] == src]
+            if len(vs) == 1:
+                ins = [c for c in vs[0]["calls"] if c[0].startswith("IndexMap::insert(") and c[1] == "true"]
+                got = [c[0][:200] for c in ins]
+                keys_x = [k.replace("$1", "$x") for k in keys] + ["ExchangeAsset::new($x.value.exchange, $x.value.asset.name_internal)"]
+                ok = len(ins) == 1 and any((", %s, %s" % (k, state_prefix.replace("$1", "$x"))) in ins[0][0] for k in keys_x)
+        n += 1 if ok else 0
+        ctx.check(mir.short(p), ok, "each entry is keyed by the indexed entity's own name and holds the state built for that same entity",
+                  got=got, want=(keys[0], state_prefix + ".."), key="own-key")
+    ctx.floor("by-name tables keyed by own name", n, 3)
